@@ -29,6 +29,7 @@ static unsigned char ps_wdata[1 << 18];
 static size_t ps_nwdata;
 static int ps_outside;           /* an access left the region */
 static unsigned ps_calls, ps_call_bound;
+static int ps_log_reads = 1, ps_log_overflow;
 static int ps_runaway;
 /* fault injection: the ps_fault_at-th access (0-based, reads and writes counted together) fails */
 static long ps_fault_at = -1;
@@ -59,6 +60,7 @@ ps_log_reset(void)
     ps_nwdata = 0;
     ps_calls = 0;
     ps_fault_fired = 0;
+    ps_log_overflow = 0;
 }
 
 static size_t
@@ -89,7 +91,11 @@ ps_access(int write, uint32_t addr, void *rbuf, const void *wbuf, size_t n)
     int inside = n == 0 || (n <= ps_len && lo >= ps_base && hi <= (uint64_t)ps_base + ps_len);
     if (!inside)
         ps_outside = 1;
-    if (ps_nlog < PS_MAXLOG) {
+    if (!write && !ps_log_reads) {
+        /* operations with tens of thousands of reads: only the writes are kept (no fault injection then) */
+    } else if (ps_nlog >= PS_MAXLOG) {
+        ps_log_overflow = 1;
+    } else {
         struct ps_access *a = &ps_log[ps_nlog++];
         a->write = write;
         a->addr = addr;
